@@ -18,7 +18,7 @@ import refsftp as RS
 from refsftp import FXP
 from vloop import Livelock
 
-BASE = '/dev/shm/asyncssh-verif-c13'
+BASE = '/dev/shm/asyncssh-verif-c13-%d' % os.getpid()       # unique per check run (workers are forked later)
 NAMES = [b'a', b'..', b'.', b'../x', b'/abs/x', b'a/b', b'a\\b', b'', b'..\\x', b'../../y', b'...']
 
 
